@@ -114,6 +114,12 @@ CLAIMS = {
         note='No unbounded obligation: the quantifier over all histories is outside the technique; K objects per call and the scenario set are the bounds. Recursive maintenance through '
              '__set__ / _delete_ is exercised only by the scenarios.',
         technique='contracts on real functions, bounded exhaustive state enumeration (contract-based family, bounded stand-in)'),
+    'C28': dict(
+        text='Finite-domain proof by complete enumeration: the set of in-place mutators of dict and list is obtained by probing CPython at start-up and cross-checked '
+             'with a hand-written list; for every method of dict / list on TrackedDict / TrackedList / TrackedArray: mutators (incl. += *= |=, slice assignment, sort, reverse, '
+             'popitem ...) report the change to the owner, give the builtin\'s result and wrap container arguments so that later nested changes are reported; non-mutating '
+             'methods report nothing. Entity._attr_changed_ for every object status. End-to-end persistence of each mutator at nesting depth 1..4 on a real session is BOUNDED.',
+        note='Ground obligations. The mutator list is tied to the running CPython (3.12): a new mutator in a later Python shows up as a start-up discrepancy (exit 3).'),
 }
 
 _NOT_BUILT = 'within reach of the technique per DESIGN.md, check not built yet'
